@@ -280,6 +280,16 @@ class Functor(pg_object.Object, utils.Functor):
 
   def __delattr__(self, name: str) -> None:
     """Discard a previously bound argument and reset to its default value."""
+    if base.treats_as_sealed(self):
+      raise base.WritePermissionError(
+          self._error_message(
+              f'Cannot delete attribute {name!r}: object is sealed.'))
+    if not base.writtable_via_accessors(self):
+      raise base.WritePermissionError(
+          self._error_message(
+              f'Cannot delete attribute {name!r} of '
+              f'<class {self.__class__.__name__}> while accessors are not '
+              f'writable.'))
     del self._sym_attributes[name]
     if self.__signature__.get_value_spec(name).has_default:
       self._default_args.add(name)
